@@ -1,3 +1,4 @@
+import BalmProofs.SubNetSpec
 import BalmProofs.OwnBridge
 import BalmProofs.AttrBridge
 import BalmProofs.SymHyp
